@@ -23,10 +23,10 @@ def scenarios(ctx):
     out.append(("late-joiner-app", gc.two_members(errs=e, baseline="app", **tail), B))
     out.append(("leaver", gc.two_members(errs=e, members=[dict(topics=["t"], assignors=["range"]),
                                                           dict(topics=["t"], assignors=["range"], start=0.4, stop=1.7)], **tail), B))
-    out.append(("commit-task", gc.two_members(errs=e, members=[dict(topics=["t"], assignors=["range"], commit_task=True),
-                                                               dict(topics=["t"], assignors=["range"], start=1.0, commit_task=True)], **tail), B))
-    out.append(("manual-commit-only", gc.two_members(errs=e, members=[dict(topics=["t"], assignors=["range"], commit_task=True, auto_commit=False),
-                                                                      dict(topics=["t"], assignors=["range"], start=1.0, commit_task=True, auto_commit=False)], **tail), Q))
+    out.append(("commit-task", gc.two_members(errs=e, members=[dict(topics=["t"], assignors=["range"], commit_after_poll=True),
+                                                               dict(topics=["t"], assignors=["range"], start=1.0, commit_after_poll=True)], **tail), B))
+    out.append(("manual-commit-only", gc.two_members(errs=e, members=[dict(topics=["t"], assignors=["range"], commit_after_poll=True, auto_commit=False),
+                                                                      dict(topics=["t"], assignors=["range"], start=1.0, commit_after_poll=True, auto_commit=False)], **tail), Q))
     out.append(("batch-polls", gc.two_members(errs=e, poll_max_records=None, feed=[0.2, 8], **tail), Q))
     if not quick:
         out.append(("three", gc.two_members(errs=e, topics={"t": 3}, members=[dict(topics=["t"], assignors=["roundrobin"]),
